@@ -124,7 +124,8 @@ func genScenario(rng *rand.Rand, n int, allTransports bool) *Scenario {
 		sp.Plan = genPlan(rng, sc, sp.Transport)
 		sc.Readers = append(sc.Readers, sp)
 	}
-	if !anyUDP && rng.IntN(2) == 0 {
+	if !anyUDP && !sc.TLS && rng.IntN(2) == 0 {
+		// (with SRTP a reader that misses a packet loses the rollover counter: known finding, see srtpArbSeqScenario)
 		sc.ArbSeq = true
 	}
 	if sc.Mode == "racy" {
@@ -156,6 +157,20 @@ func runScenario(c *corr.Ctx, sc *Scenario, name string, st *runStats) {
 		sort.SliceStable(rd.recs, func(i, j int) bool { return rd.recs[i].stamp < rd.recs[j].stamp })
 	}
 	h.checkProperty(c)
+	if os.Getenv("PIPE_DEBUG") != "" {
+		b, _ := json.Marshal(sc)
+		fmt.Fprintf(os.Stderr, "== %s %s\n", name, b)
+		for _, rd := range h.readers {
+			fmt.Fprintf(os.Stderr, "   reader %d %s: callbacks %d arrivals %d decodeErrs %v closeErr %q ctl", rd.idx, rd.spec.Transport, len(rd.recs), len(rd.arrivals), rd.decodeErrs, rd.closeErr)
+			for _, ob := range rd.ctl {
+				fmt.Fprintf(os.Stderr, " %s[%d..%d k=%d]", ob.op, ob.cs, ob.cd, ob.k)
+			}
+			fmt.Fprintln(os.Stderr)
+		}
+		for _, n := range h.notes {
+			fmt.Fprintln(os.Stderr, "   note:", n)
+		}
+	}
 	if !sc.NoModel {
 		c.Add(h.buildCase(name))
 	} else {
